@@ -496,6 +496,12 @@ func (st *state) Case(q Req) (*Resp, error) {
 				}
 				return nil, fmt.Errorf("Unmarshal(%s) fails: %v (bytes %x)", in.what, eg, in.b)
 			}
+			if st.batch.Names {
+				// first of all, before protoreflect touches the message: getters of fields still held lazily
+				if _, err := checkGetters(g2.Interface(), v, &res.NegZero); err != nil {
+					return nil, fmt.Errorf("generated getters right after Unmarshal(%s): %v", in.what, err)
+				}
+			}
 			if s := diff(g2); s != "" {
 				return nil, fmt.Errorf("generated: Unmarshal(%s) differs from the model: %s (bytes %x)", in.what, s, in.b)
 			}
@@ -512,11 +518,6 @@ func (st *state) Case(q Req) (*Resp, error) {
 			}
 			if err := ops.Verify(g2, v); err != nil {
 				return nil, fmt.Errorf("generated, after Unmarshal(%s): %v", in.what, err)
-			}
-			if st.batch.Names {
-				if _, err := checkGetters(g2.Interface(), v, &res.NegZero); err != nil {
-					return nil, fmt.Errorf("generated getters after Unmarshal(%s): %v", in.what, err)
-				}
 			}
 			if ig, id := proto.CheckInitialized(g2.Interface()), proto.CheckInitialized(d2.Interface()); (ig == nil) != (id == nil) {
 				return nil, fmt.Errorf("CheckInitialized verdicts differ: generated %v, dynamicpb %v", ig, id)
@@ -622,9 +623,10 @@ func (st *state) Case(q Req) (*Resp, error) {
 		b4g, eg := mo.Marshal(g4.Interface())
 		b4d, ed := mo.Marshal(d4.Interface())
 		if (eg == nil) != (ed == nil) || !bytes.Equal(b4g, b4d) {
-			if q.Bad8 && repStringExtInvalid(g4) {
+			bad8 := q.Bad8 || anyInvalidUTF8(g4) // a history may bring invalid UTF-8 of its own
+			if bad8 && repStringExtInvalid(g4) {
 				res.RepStrExt = true
-			} else if !(q.Bad8 && eg != nil && ed != nil) {
+			} else if !(bad8 && eg != nil && ed != nil) {
 				return nil, fmt.Errorf("after the history: deterministic Marshal differs:\n generated %x (%v)\n dynamicpb %x (%v)", b4g, eg, b4d, ed)
 			}
 		}
